@@ -64,6 +64,18 @@ pub enum Motif {
         enemy_kf: u8,
         enemy_rights: bool,
     },
+    /// A pawn on its start rank shields the enemy king from one of our sliders (rank or
+    /// diagonal): the double push discovers a check *and* sets an en-passant file.
+    PreEp {
+        black: bool,
+        file: u8,
+        dir: u8,
+        dk: u8,
+        ds: u8,
+        queen: bool,
+        /// enemy pawn that could capture en passant afterwards: 0 none, 1 left, 2 right, 3 both
+        capturers: u8,
+    },
     /// King near an edge with a few enemy pieces close by: mates and stalemates.
     Net {
         black: bool,
@@ -392,6 +404,27 @@ fn apply_motif(b: &mut Builder, m: &Motif, h: &mut Hints) {
                 b.put(f as i32 % 8, r7, Kind::P, us);
             }
         }
+        Motif::PreEp { black, file, dir, dk, ds, queen, capturers } => {
+            let us = side_of(*black);
+            let them = us.other();
+            h.stm = Some(us);
+            let f = *file as i32 % 8;
+            let (r2, r4) = if us == Side::W { (1, 3) } else { (6, 4) };
+            b.put(f, r2, Kind::P, us);
+            // line through (f, r2): along the rank or a diagonal
+            let (df, dr) = [(1, 0), (-1, 0), (1, 1), (1, -1), (-1, -1), (-1, 1)][*dir as usize % 6];
+            let diag = dr != 0;
+            let dk = 1 + *dk as i32 % 5;
+            let ds = 1 + *ds as i32 % 5;
+            b.put(f + df * dk, r2 + dr * dk, Kind::K, them);
+            b.put(f - df * ds, r2 - dr * ds, if *queen { Kind::Q } else if diag { Kind::B } else { Kind::R }, us);
+            if capturers & 1 != 0 {
+                b.put(f - 1, r4, Kind::P, them);
+            }
+            if capturers & 2 != 0 {
+                b.put(f + 1, r4, Kind::P, them);
+            }
+        }
         Motif::Net { black, ksq, pieces, enemy_k } => {
             let us = side_of(*black);
             let them = us.other();
@@ -533,6 +566,8 @@ fn arb_motif() -> impl Strategy<Value = Motif> {
             .prop_map(|(black, pawns, targets, enemy_kf, enemy_rights)| Motif::Promo { black, pawns, targets, enemy_kf, enemy_rights }),
         2 => (any::<bool>(), any::<u8>(), vec((any::<u8>(), -3i8..4, -3i8..4), 1..5), (-3i8..4, -3i8..4))
             .prop_map(|(black, ksq, pieces, enemy_k)| Motif::Net { black, ksq, pieces, enemy_k }),
+        1 => (any::<bool>(), 0u8..8, 0u8..6, 0u8..5, 0u8..5, any::<bool>(), 0u8..4)
+            .prop_map(|(black, file, dir, dk, ds, queen, capturers)| Motif::PreEp { black, file, dir, dk, ds, queen, capturers }),
     ]
 }
 
@@ -624,7 +659,16 @@ pub fn arb_op() -> impl Strategy<Value = Op> {
 
 pub fn arb_case(w_dfrc: u32, w_seed: u32, w_built: u32, max_ops: usize) -> impl Strategy<Value = PosCase> {
     (arb_start(w_dfrc, w_seed, w_built), prop_oneof![2 => vec(arb_op(), 0..8), 2 => vec(arb_op(), 0..(max_ops / 3).max(9)), 1 => vec(arb_op(), 0..max_ops.max(10))])
-        .prop_map(|(start, ops)| PosCase { start, ops })
+        .prop_map(|(start, mut ops)| {
+            if let Start::Built(ing) = &start {
+                if matches!(ing.motif, Motif::PreEp { .. }) {
+                    // play a double push first (selector taken from the generated data so it shrinks with it)
+                    let sel = ing.fm_raw.wrapping_mul(40503);
+                    ops.insert(0, Op::Move { sel, bias: 5 });
+                }
+            }
+            PosCase { start, ops }
+        })
 }
 
 /// Start board as the library hands it out, plus a textual description for replay files.
@@ -808,6 +852,20 @@ pub fn board_from_text(text: &str) -> Option<Board> {
 // ------------------------------------------------------------------------------------------
 // Position classes shared by several properties
 
+/// EP file set while the mover is in check: by the pawn that just advanced, or by a slider
+/// whose line the advance opened.
+pub fn ep_check_classes(p: &Pos, st: &mut crate::runner::Stats) {
+    if let Some(f) = p.ep {
+        let ch = p.checkers_mask();
+        if ch != 0 {
+            let r4 = if p.stm == Side::W { 4 } else { 3 };
+            let pawn = 1u64 << sq(f as i32, r4);
+            st.class_if(ch & pawn != 0, "ep-set:check-by-pushed-pawn");
+            st.class_if(ch & !pawn != 0, "ep-set:discovered-slider-check");
+        }
+    }
+}
+
 pub fn classify(p: &Pos, st: &mut crate::runner::Stats, legal: &[RMove]) {
     let checkers = p.checkers_mask().count_ones();
     st.class(match checkers {
@@ -821,6 +879,7 @@ pub fn classify(p: &Pos, st: &mut crate::runner::Stats, legal: &[RMove]) {
     st.class_if(pinned & own != 0, "own-piece-pinned");
     st.class_if(pinned & !own != 0, "enemy-piece-on-pin-line");
     st.class_if(p.ep.is_some(), "ep-file-set");
+    ep_check_classes(p, st);
     if p.ep.is_some() {
         let pseudo_ep = p.pseudo_moves().iter().any(|m| p.is_ep_capture(*m));
         let legal_ep = legal.iter().any(|m| p.is_ep_capture(*m));
